@@ -45,7 +45,10 @@ CONFIG = {
                     "(dynamicpb), mixed, failing (a generated graph with a member whose build is a schema error and that shares "
                     "sub-schemas with good types: the roll-back runs under contention), mutual (generated rings with back edges: self "
                     "and mutual recursion), flatten (mutually flattening / shared flattened child graphs), clash (the schema-name "
-                    "collision family plus types first used after the clash error); in half of the rounds every goroutine's first call is on the same type (stampede on its "
+                    "collision family plus types first used after the clash error), bigenum (an enum with 24-63 values used as scalar, repeated and through nested "
+                    "messages, decoded from JSON / query inputs that write the values with the enum's prefix: the spelling that reaches EnumSchema.OptionByName); "
+                    "the child's watchdog (120 s without a completed call) reports a deadlock only when no goroutine is running or runnable (on an overloaded machine "
+                    "a running call is given up to six extensions); in half of the rounds every goroutine's first call is on the same type (stampede on its "
                     "first use, through a different entry point per goroutine); every result is compared with the result of the same call alone on a fresh codec (JSON "
                     "compared up to object key order). Failures: a race detector report (signature race:<function of the write>), "
                     "fatal 'concurrent map', crash, deadlock (no call completed for 120 s), differing result, unlinked ref observed. Non-trivial = a "
